@@ -354,7 +354,120 @@ def check_C19(tier, seed, t0):
     return finish('C19', tier, seed, 'exploration', parts, C19_RULE, ASSUME_COMMON + ['comparator calls are counted by a global counter inside the comparator (key_comp() copies share it)'], t0)
 
 
-CHECKS = {'C03': check_C03, 'C09': check_C09, 'C18': check_C18, 'C19': check_C19, 'C12': check_C12, 'C04': check_C04, 'C11': check_C11, 'C08': check_C08, 'C10': check_C10, 'C13': check_C13, 'C14': check_C14, 'C01': check_C01, 'C02': check_C02, 'C05': check_C05, 'C06': check_C06, 'C07': check_C07}
+C15_RULE = ('every algorithm exported by memory.hpp (construct_at, destroy/_at/_n, uninitialized_copy/_n, uninitialized_move/_n, '
+            'uninitialized_default/value_construct/_n, uninitialized_relocate/_n, relocate_at) x length 0..8 exhaustively plus seed-derived longer '
+            'lengths x source {T*, const T*, deque, list, forward_list, single-pass (copy family), move_iterator} x destination {T*, wrapped forward '
+            'iterator over raw storage} x element {int, TC7, TR, NTR, ThrM (throwing move)} x every throw index, built as C++11/14/17/20; oracle: '
+            'reference semantics (values, returned iterators/pairs as distances, source advance), on a throw nothing created survives, relocate sources '
+            'stay alive, canaries around the destination intact; non-trivial = len >= 2 and (non-pointer iterator or non-trivial value or interior '
+            'throw index); distinct = distinct grid point per language standard')
+
+
+def c15_units():
+    return [enum_unit('algo_c15_cxx%s' % s, 'targets/algo_c15.cpp', std=s, defines={'VF_TNAME': '"algo_c15_cxx%s"' % s}) for s in ('11', '14', '17', '20')]
+
+
+def check_C15(tier, seed, t0):
+    parts = [enum_part('C15', 'algorithm_grid', c15_units(), seed, tier, C15_RULE, crash_is_violation=True, exhaustive=True)]
+    return finish('C15', tier, seed, 'fault_enumeration', parts, C15_RULE, ASSUME_COMMON + ['C-array element types are not exercised'], t0)
+
+
+C17_RULE = ('matrix of element types Elem<Size,Align,Kind> (25 size/alignment pairs x {trivial, TR-declared non-trivial, non-TR, throwing-move, opted-out} '
+            '+ std::pair combinations) x N in a fixed list (0..10, 15-17, 31-33, 40, 255, 256, 65535, 65536) plus seed-derived N, for C++11/14/17/20; the '
+            'compiler evaluates sizeof, alignof, is_trivially_relocatable, triviality, size_type, noexcept(move/assign/swap) and the trivially_relocatable '
+            'typedefs of vector/SmallVector/FixedCapacityVector/FlatSet/SmallSet; an independent Python formula derived from the statement gives the '
+            'expected values; non-trivial = size not a power of two, alignment != size, pair type, N at a size_type boundary or N*sizeof(T) within one '
+            'element of sizeof(void*); distinct = distinct (type, N, standard)')
+
+
+def check_C17(tier, seed, t0, only=None):
+    from . import c17
+    r = c17.run(tier, seed, only_rows=only)
+    viol = []
+    if r['errors']:
+        print('BUILD ERROR in generated C17 translation unit:\n' + r['errors'][0])
+        return 2
+    seen = set()
+    rd = IC.replays_dir()
+    for rid, msg in r['bad']:
+        if rid in seen:
+            continue
+        seen.add(rid)
+        pth = rd / ('C17-%s.tape' % D.sha(rid)[:10])
+        pth.write_text('check=C17 config=c17_matrix  # %s\ncase %s\n' % (msg, rid))
+        viol.append((str(pth), msg))
+        if len(viol) >= 8:
+            break
+    nstd = len(r['stds'])
+    nt = sum(1 for (t, n) in r['rows'] if c17.nontrivial(t, n))
+    samples = ['%s|N=%d' % (c17.tid(t), n) for (t, n) in r['rows'][::max(1, len(r['rows']) // 8)]][:8]
+    cov = {'evaluations': r['evaluated'], 'distinct_nontrivial': nt * nstd if not r['bad'] else nt * nstd, 'rule': C17_RULE, 'samples': samples,
+           'rows_per_standard': len(r['rows']), 'standards': r['stds'], 'mismatches': len(r['bad']), 'exhaustive': False}
+    part = Part('static_matrix', cov, viol, r['wall'])
+    return finish('C17', tier, seed, 'exploration', [part], C17_RULE,
+                  ['the evaluator is g++ 12 on x86-64 (sizeof(void*) == 8); the converse of the noexcept implications is not demanded'], t0)
+
+
+C16_RULE = ('tapes generated (rapidcheck, seed-derived) by the C01/C03/C04 generators for 5 vector, 3 FlatSet and 2 SmallSet configurations, in two corpora: '
+            'portable (only operations every configuration offers; replayed by every build) and full (everything C++17/20 extras builds offer); each build '
+            '= {c++11,14,17,20} x {AMC_NONSTD_FEATURES on,off} x {NDEBUG, assertions} x {-O0,-O2} without sanitizer (quick: 8-build pairwise covering '
+            'subset, thorough: all 32); oracle: byte-identical transcripts (effective op, contents, size, capacity after every op) and no model violation '
+            'in any build; absence of the extras in pedantic builds is probed by SFINAE detection, of smallset.hpp before C++17 by a failing compile; '
+            'non-trivial = tape with a boundary feature (C01/C03/C04 rule) replayed by builds of >= 2 language levels; distinct = distinct (config, transcript)')
+
+
+def check_C16(tier, seed, t0, only=None):
+    from . import c16
+    r = c16.run(tier, seed, only=only)
+    if 'error' in r:
+        print('ERROR ' + r['error'])
+        return 2
+    viol = []
+    rd = IC.replays_dir()
+    seen = set()
+    for m in r['mismatches']:
+        key = (m['config'], m['level'], m['tape'])
+        if key in seen or len(viol) >= 8:
+            continue
+        seen.add(key)
+        pth = rd / ('C16-%s-%s.tape' % (m['config'], D.sha(str(key), m.get('tape_text', ''))[:10]))
+        pth.write_text('check=C16 config=%s level=%d  # %s: %s\n%s\n' % (m['config'], m['level'], m['build'], m['msg'].replace('\n', ' '), m.get('tape_text', '').strip()))
+        viol.append((str(pth), '%s [%s] %s' % (m['config'], m['build'], m['msg'])))
+    for i, msg in enumerate(r['absent_msgs']):
+        pth = rd / ('C16-absence-%d.tape' % i)
+        pth.write_text('check=C16 config=absence  # %s\n' % msg)
+        viol.append((str(pth), msg))
+    st = r['stats']
+    cov = {'evaluations': st['tapes'], 'distinct_nontrivial': st['distinct_nontrivial'], 'rule': C16_RULE, 'samples': r['samples'] or [{'note': 'no sample'}],
+           'transcripts_compared': st['transcripts'], 'ops_replayed_per_build': st['ops'], 'builds': r['builds'], 'groups': r['groups'],
+           'absence_table': r['absence_table'], 'exhaustive': False}
+    part = Part('differential_transcripts', cov, viol, r['wall'])
+    return finish('C16', tier, seed, 'exploration', [part], C16_RULE,
+                  ['transcripts never contain addresses; layout is not compared', 'the builds use g++ 12 only'], t0)
+
+
+C20_RULE = ('rapidcheck-generated programs: container type (9: vector, SmallVector inline/heap, FixedCapacityVector, FlatSet x2, SmallSet inline/large over '
+            'std::set and FlatSet) x state x 2..8 reader threads each running a generated list of const operations (size, iteration, [], at, find/'
+            'contains/count/bounds, ==, <, copy construction) for 6 rounds after a common start flag with generated spin offsets x 0..2 writer threads '
+            'mutating distinct container objects; built with -fsanitize=thread; oracle: no ThreadSanitizer report and every reader result equals the '
+            'precomputed single-threaded result; non-trivial = at least two readers execute a common operation kind on the shared container; '
+            'distinct = distinct (container, state, per-thread programs)')
+
+
+def race_unit():
+    return D.Unit('race_c20', 'targets/race_c20.cpp', dict(NONSTD), std='17', kind='tsan', engine=True)
+
+
+def check_C20(tier, seed, t0):
+    cases, procs = budget(tier, (3000, 8), (40000, 12))
+    jobs = [{'unit': race_unit(), 'cases': cases, 'maxlen': 30, 'label': '#%d' % i} for i in range(procs)]
+    part = interp_part('C20', 'tsan_reader_programs', jobs, seed, C20_RULE, True)
+    return finish('C20', tier, seed, 'exploration', [part], C20_RULE,
+                  ['schedules are sampled, not owned: ThreadSanitizer detects unsynchronised conflicting accesses by happens-before analysis within its history window',
+                   'elements are plain int and a malloc-owning type; the global ledgers are not used in this target'], t0)
+
+
+CHECKS = {'C03': check_C03, 'C09': check_C09, 'C20': check_C20, 'C16': check_C16, 'C17': check_C17, 'C15': check_C15, 'C18': check_C18, 'C19': check_C19, 'C12': check_C12, 'C04': check_C04, 'C11': check_C11, 'C08': check_C08, 'C10': check_C10, 'C13': check_C13, 'C14': check_C14, 'C01': check_C01, 'C02': check_C02, 'C05': check_C05, 'C06': check_C06, 'C07': check_C07}
 
 
 def all_units():
@@ -363,6 +476,9 @@ def all_units():
         us += [vec_unit(n, s) for n in C.VEC_MULTISTD]
     us += [fs_unit(n) for n, _ in C.FS_CONFIGS]
     us += [fault_unit(n) for n, _ in FAULT_CONFIGS]
+    us += c15_units() + [race_unit()]
+    from . import c16
+    us += [c16.unit(cfg, b) for cfg in c16.VEC + c16.FS + c16.SS for b in c16.QUICK_BUILDS if not (cfg in c16.SS and b[0] in ('11', '14'))]
     us += [enum_unit('exh_c12', 'targets/exh_c12.cpp'), enum_unit('growth_c18', 'targets/growth_c18.cpp', kind='plain'),
            enum_unit('growth_c18_asan', 'targets/growth_c18.cpp', kind='asan'), enum_unit('lookup_c19', 'targets/lookup_c19.cpp', kind='plain')]
     us += [ss_unit(n) for n, _ in C.SS_CONFIGS] + [ss_unit(n, '20') for n, _ in C.SS_CONFIGS[:4]]
@@ -373,6 +489,17 @@ def all_units():
 
 def replay(prop, path):
     """./check Cxx --replay file: rebuild what is needed, run the case once, exit 1 if it still fails"""
+    if prop == 'C16':
+        lines = open(path).read().splitlines()
+        kv = dict(x.split('=', 1) for x in lines[0].split('#')[0].split() if '=' in x)
+        if kv.get('config') == 'absence':
+            return check_C16('quick', 1, time.time())
+        ops = [l for l in lines[1:] if l.strip() and l.strip()[0].isdigit()]
+        return check_C16('quick', 1, time.time(), only=(kv['config'], int(kv.get('level', 2)), ops))
+    if prop == 'C17':
+        from . import c17
+        keys = [l[5:].strip() for l in open(path).read().splitlines() if l.startswith('case ')]
+        return check_C17('quick', 1, time.time(), only=[c17.parse_rid(k) for k in keys])
     header, ops = D.read_tape(path)
     kv = dict(x.split('=', 1) for x in header.split('#')[0].split() if '=' in x)
     cfg = kv.get('config', '')
